@@ -9,6 +9,7 @@ package main
 
 import (
 	"fmt"
+	"go/token"
 	"go/types"
 
 	"golang.org/x/tools/go/ssa"
@@ -108,5 +109,195 @@ func init() {
 			Old: "\tmapBytes := make([]byte, backingBytes)\n", New: "\tmapBytes := sharedBacking\n",
 			Old2: "type lineAddr struct {", New2: "var sharedBacking = make([]byte, backingBytes)\n\ntype lineAddr struct {", File2: "tools/tuner/epd/chunker.go",
 			Expect: "C20.R6/"},
+	)
+}
+
+// C20.R7: Chunk.Read withholds a line only when the chunk is exhausted or the file read itself failed. Any other
+// error return (a "short read" guard on the byte count of the refill) must not be taken when the refill delivered
+// the whole line: the line's extent addr.end-addr.start already includes the '\n', so a count equal to it is a
+// complete read. A guard that also fires on equality drops the last line of the file (and every line that a
+// refill ends on) from the epoch.
+func c20R7(c *Ctx, p *Prog) {
+	const rule = "C20.R7"
+	root := p.Func("tools/tuner/epd.(*Chunk).Read")
+	if root == nil {
+		c.Anchor(rule, "epd.(*Chunk).Read")
+		return
+	}
+	n := 0
+	done := map[*ssa.Function]bool{}
+	var analyse func(fn *ssa.Function, depth int)
+	analyse = func(fn *ssa.Function, depth int) {
+		if done[fn] {
+			return
+		}
+		done[fn] = true
+		c20R7fn(c, p, rule, fn, root, &n, func(h *ssa.Function) {
+			if depth < 3 {
+				analyse(h, depth+1)
+			}
+		})
+	}
+	analyse(root, 0)
+	if n == 0 {
+		c.OkTrivial(rule, "Read#refusal", root.Pos(), "Read withholds a line only on exhaustion (io.EOF) or with the error of the file read itself")
+	}
+}
+
+// c20R7fn: the error returns of fn (Read itself or a helper of package epd whose error Read hands on).
+func c20R7fn(c *Ctx, p *Prog, rule string, fn, root *ssa.Function, n *int, follow func(*ssa.Function)) {
+	// the refill: a ReadAt/Read call whose count result is used
+	var cnts []ssa.Value
+	var refillErr []ssa.Value
+	allInstrs(fn, func(in ssa.Instruction) {
+		ex, ok := in.(*ssa.Extract)
+		if !ok {
+			return
+		}
+		call, ok := ex.Tuple.(*ssa.Call)
+		if !ok {
+			return
+		}
+		name := ""
+		if f := calleeObj(call); f != nil {
+			name = f.Name()
+		} else if call.Call.IsInvoke() {
+			name = call.Call.Method.Name()
+		}
+		if name != "ReadAt" && name != "Read" && name != "ReadFull" {
+			return
+		}
+		if ex.Index == 0 {
+			cnts = append(cnts, ex)
+		} else {
+			refillErr = append(refillErr, ex)
+		}
+	})
+	isCnt := func(v ssa.Value) bool {
+		v = stripConv(v)
+		for _, k := range cnts {
+			if v == k {
+				return true
+			}
+		}
+		return false
+	}
+	// extent: addr.end - addr.start (fields `end` and `start` of one lineAddr value)
+	isExtent := func(v ssa.Value) bool {
+		bo, ok := stripConv(v).(*ssa.BinOp)
+		if !ok || bo.Op != token.SUB {
+			return false
+		}
+		fe, be := structFieldOf(bo.X)
+		fs, bs := structFieldOf(bo.Y)
+		if fe < 0 || fs < 0 || be == nil || bs == nil {
+			return false
+		}
+		st, ok := be.Type().Underlying().(*types.Struct)
+		if !ok || fe >= st.NumFields() || fs >= st.NumFields() {
+			return false
+		}
+		return st.Field(fe).Name() == "end" && st.Field(fs).Name() == "start" && sameValue(be, bs, 0)
+	}
+	errIx := fn.Signature.Results().Len() - 1
+	allInstrs(fn, func(in ssa.Instruction) {
+		ret, ok := in.(*ssa.Return)
+		if !ok || errIx < 0 || len(ret.Results) != errIx+1 {
+			return
+		}
+		ev := returnedValue(ret, errIx)
+		if k, isc := ev.(*ssa.Const); isc && k.Value == nil {
+			return
+		}
+		// the error of a helper of this package, handed on: the helper's own refusals are examined in its body
+		handed := false
+		for x := range backSlice(ev, sliceOpts{}) {
+			var call *ssa.Call
+			switch y := x.(type) {
+			case *ssa.Call:
+				call = y
+			case *ssa.Extract:
+				call, _ = y.Tuple.(*ssa.Call)
+			}
+			if call == nil {
+				continue
+			}
+			if h := call.Call.StaticCallee(); h != nil && isOwn(h) && h.Blocks != nil && relPkg(fnPkgPath(h)) == relPkg(fnPkgPath(root)) {
+				follow(h)
+				handed = true
+			}
+		}
+		if handed {
+			return
+		}
+		if ld, ok := stripConv(ev).(*ssa.UnOp); ok && ld.Op == token.MUL {
+			if g, ok := ld.X.(*ssa.Global); ok && g.Pkg != nil && g.Pkg.Pkg.Path() == "io" && g.Name() == "EOF" {
+				return // exhaustion (decided by C20.R5)
+			}
+		}
+		for x := range backSlice(ev, sliceOpts{}) {
+			for _, re := range refillErr {
+				if x == re {
+					return // the file's own error, handed on
+				}
+			}
+			if g, ok := x.(*ssa.Global); ok && g.Pkg != nil && g.Pkg.Pkg.Path() == "io" && g.Name() == "EOF" {
+				return // exhaustion (decided by C20.R5)
+			}
+		}
+		*n++
+		key := fmt.Sprintf("Read#refusal@%d", *n)
+		// which tests of the refill's byte count lead here?
+		verdict, why := "undec", "the condition under which Read refuses the line is not a recognised test of the refill's byte count against the line's extent"
+		for _, ce := range controllingConds(ret.Block()) {
+			v, truth := ce.Cond, ce.True
+			for {
+				if u, ok := v.(*ssa.UnOp); ok && u.Op == token.NOT {
+					v, truth = u.X, !truth
+					continue
+				}
+				break
+			}
+			bo, ok := v.(*ssa.BinOp)
+			if !ok {
+				continue
+			}
+			op := bo.Op
+			switch {
+			case isCnt(bo.X) && isExtent(bo.Y):
+			case isCnt(bo.Y) && isExtent(bo.X):
+				op = swapCmp(op)
+			default:
+				continue
+			}
+			if !truth {
+				op = negCmp(op)
+			}
+			// op relates cnt to extent on the way to the refusal; is it satisfied by cnt == extent?
+			switch op {
+			case token.LSS, token.NEQ, token.GTR:
+				if op == token.LSS {
+					verdict, why = "ok", "the line is refused only when the refill delivered fewer bytes than the line's extent"
+				}
+			case token.LEQ, token.EQL, token.GEQ:
+				verdict, why = "fail", "Read refuses the line when the refill delivered exactly addr.end-addr.start bytes; that extent already includes the newline, so the read is complete: the file's last line (and any line a refill ends on) is never delivered"
+			}
+		}
+		switch verdict {
+		case "ok":
+			c.Ok(rule, key, ret.Pos(), "%s", why)
+		case "fail":
+			c.Fail(rule, key, ret.Pos(), "%s", why)
+		default:
+			c.Undec(rule, key, ret.Pos(), "%s", why)
+		}
+	})
+}
+
+func init() {
+	addMutants(
+		Mutant{Name: "C20.R7-short-read-guard-fires-on-exact-read", Prop: "C20", File: "tools/tuner/epd/chunker.go", Quick: true,
+			Old: "\t\tc.mapStart = addr.start\n\t\tc.mapEnd = addr.start + int64(cnt)\n", New: "\t\tif int64(cnt) <= addr.end-addr.start {\n\t\t\treturn nil, ErrTruncatedRead\n\t\t}\n\t\tc.mapStart = addr.start\n\t\tc.mapEnd = addr.start + int64(cnt)\n",
+			Expect: "C20.R7/Read#refusal@1"},
 	)
 }
